@@ -355,6 +355,12 @@ class TheJoker:
             else:
                 ln_prior = return_logprobs
 
+            if max_prior_samples is not None:
+                # never evaluate more than max_prior_samples, like the cached path
+                prior_samples = prior_samples[:max_prior_samples]
+                if not isinstance(ln_prior, (bool, type(None))):
+                    ln_prior = ln_prior[:max_prior_samples]
+
             samples = iterative_rejection_inmem(
                 joker_helper,
                 prior_samples,
